@@ -83,6 +83,12 @@ def translate(src: Path) -> dict:
              and ast.unparse(s.targets[0] if isinstance(s, ast.Assign) else s.target) == 'self._ticket_generator']
     if found != ['ticket_generator()']:
         raise Refuse(f'SearchManager._ticket_generator is not ticket_generator(): {found}')
+    # the generator must be created once: no other assignment anywhere in the class
+    others = [ast.unparse(n) for f in sm.body if isinstance(f, (ast.FunctionDef, ast.AsyncFunctionDef)) and f.name != '__init__'
+              for n in ast.walk(f) if isinstance(n, (ast.Assign, ast.AnnAssign, ast.AugAssign))
+              and '_ticket_generator' in ast.unparse(n.targets[0] if isinstance(n, ast.Assign) else n.target)]
+    if others:
+        raise Refuse(f'SearchManager re-assigns _ticket_generator outside __init__: {others}')
     for name in ('search', 'search_room', 'search_user', '_wishlist_job'):
         f = find_func(sm.body, name)
         draws = [ast.unparse(n) for n in ast.walk(f) if isinstance(n, ast.Call) and isinstance(n.func, ast.Name)
